@@ -194,6 +194,7 @@ def run(ctx):
     b = [c for c in calls_in(lk, "do_relocations")]
     ok = bool(a) and bool(b) and cfg.must_pass(cfg.stmt_of(b[0]), lambda n: n is cfg.stmt_of(a[0]))
     ctx.ob("C13.R4", L + ":Linker.link", "relaxation runs before relocations are applied", ok, construct="relax-before-reloc")
+    _cj_layout(ctx)
 
 
 def _sorted_before_apply(ctx):
@@ -201,3 +202,37 @@ def _sorted_before_apply(ctx):
     srt = [c for c in calls_in(dr, "sort") if norm(c.func.value) == "holes"]
     ap = [c for c in calls_in(dr, "_apply_relaxation_holes")]
     return bool(srt) and bool(ap) and srt[0].lineno < ap[0].lineno and "x[0]" in norm(srt[0])
+
+
+# RISC-V C extension, CJ format (c.j / c.jal): instruction bit <- byte-offset bit.  imm[11|4|9:8|10|6|7|3:1|5] in inst[12:2]
+CJ_REFERENCE = {12: 11, 11: 4, 10: 9, 9: 8, 8: 10, 7: 6, 6: 7, 5: 3, 4: 2, 3: 1, 2: 5}
+
+
+def _cj_layout(ctx):
+    """the compressed jump produced by relaxation scatters its offset as the RISC-V spec prescribes"""
+    from ..core import try_const
+    ctx.rule("C13.R5", "c.j / c.jal immediate scatter (apply_cool_mapping) places every offset bit in the instruction bit the RISC-V C specification assigns to it (reference table in sa/rules/c13.py)", floor=11)
+    fn = ctx.fn(RVC, "apply_cool_mapping")
+    site = RVC + ":apply_cool_mapping"
+    ps = [a.arg for a in fn.args.args]
+    ctx.need(len(ps) == 2, "apply_cool_mapping(bv, rel11) signature changed")
+    bv, rel = ps
+    got = {}
+    for st in fn.body:
+        if not (isinstance(st, ast.Assign) and isinstance(st.targets[0], ast.Subscript) and norm(st.targets[0].value) == bv and isinstance(st.targets[0].slice, ast.Slice)):
+            continue
+        lo, hi = try_const(st.targets[0].slice.lower), try_const(st.targets[0].slice.upper)
+        v = st.value
+        mask = None
+        if isinstance(v, ast.BinOp) and isinstance(v.op, ast.BitAnd):
+            mask, v = try_const(v.right), v.left
+        shift = 0
+        if isinstance(v, ast.BinOp) and isinstance(v.op, ast.RShift):
+            shift, v = try_const(v.right), v.left
+        if not (isinstance(lo, int) and isinstance(hi, int) and isinstance(shift, int) and norm(v) == rel and isinstance(mask, int) and mask == (1 << (hi - lo)) - 1):
+            ctx.undecided("C13.R5", site, "statement `%s` not interpreted" % norm(st))
+            continue
+        for k in range(hi - lo):
+            got[lo + k] = shift + k + 1      # rel11 is the halfword offset: bit k of rel11 is offset bit k+1
+    for ib, ob in sorted(CJ_REFERENCE.items()):
+        ctx.ob("C13.R5", site, "instruction bit %d carries offset bit %d" % (ib, ob), got.get(ib) == ob, construct="cj-bit:%d" % ib, detail="carries offset bit %s" % got.get(ib))
